@@ -31,7 +31,7 @@ type PipeListener struct {
 	Servers    []*rt.Conn // server ends, in dial order
 	Transports []lime.Transport
 	Clients    []*rt.Conn
-	Base       []int64 // bytes the server end had read before it was queued (WebSocket: the opening handshake)
+	Base       []int64           // bytes the server end had read before it was queued (WebSocket: the opening handshake)
 	WSServers  []*websocket.Conn // server ends of the WebSocket connections, in DialWS order
 }
 
